@@ -80,7 +80,7 @@ static const struct ans dflt = { 0, -1, -1, 1 };
 
 static struct ans pop(void) { if (or_i < or_n) return oracle[or_i++]; return dflt; }
 static void toggle(struct ans a) { if (a.toggle >= 0) %(prefix)senable_tracing(&sctx, a.toggle); }
-static void log_cb(int kind) { printf("1 %%d %%d ", kind, %(prefix)sis_in_tracing_section(&sctx)); fflush(stdout); }
+static void log_cb(int kind) { printf("1 %%d %%d %%d ", kind, %(prefix)sis_in_tracing_section(&sctx), %(prefix)spacket_is_open(&sctx)); fflush(stdout); }
 static void ret(void)
 {
 	printf("3 %%u %%u %%u %%u %%u %%u %%d %%d %%d %%d %%llu ", sctx.parent.at, sctx.parent.packet_size,
@@ -307,7 +307,7 @@ def split_events(toks):
     while i < len(toks):
         t = toks[i]
         if t == 1:
-            evs.append(tuple(toks[i:i + 3])); i += 3
+            evs.append(tuple(toks[i:i + 4])); i += 4
         elif t == 2:
             n = toks[i + 2]
             evs.append(tuple(toks[i:i + 3 + n])); i += 3 + n
